@@ -1159,3 +1159,104 @@ package engine
 
 //@ func float
 //@   property C05 C07
+
+//@ -- enum -> atom tables: the index is a valid member of the enumeration (type invariant), so the look-up cannot panic
+//@ type validType invariant[valid] self <= 14
+//@ type validDomain invariant[valid] self <= 17
+//@ type objectType invariant[valid] self <= 2
+//@ type operation invariant[valid] self <= 6
+//@ type permissionType invariant[valid] self <= 8
+//@ type flag invariant[valid] self <= 5
+//@ type resource invariant[valid] self <= 1
+//@ type exceptionalValue invariant[valid] self <= 4
+//@ type ioMode invariant[valid] self == 0 || self == 65 || self == 1089
+
+//@ func validType.Term
+//@   property C05
+//@   modifies nothing
+//@ func validDomain.Term
+//@   property C05
+//@   modifies nothing
+//@ func objectType.Term
+//@   property C05
+//@   modifies nothing
+//@ func operation.Term
+//@   property C05
+//@   modifies nothing
+//@ func permissionType.Term
+//@   property C05
+//@   modifies nothing
+//@ func flag.Term
+//@   property C05
+//@   modifies nothing
+//@ func resource.Term
+//@   property C05
+//@   modifies nothing
+//@ func exceptionalValue.Term
+//@   property C05
+//@   modifies nothing
+//@ -- ioMode.Term indexes a 1090-element literal array (ioModeAppend = 1089): beyond the encoder's array bound, not under contract
+//@ func eofAction.Term
+//@   property C05
+//@   modifies nothing
+//@ func streamType.Term
+//@   property C05
+//@   modifies nothing
+//@ func endOfStream.Term
+//@   property C05
+//@   modifies nothing
+//@ func operatorSpecifier.term
+//@   property C05
+//@   modifies nothing
+
+//@ -- ring buffers of the lexer and the parser: indices stay inside the four-element array
+//@ func (*runeRingBuffer).put
+//@   property C05
+//@   requires b != nil && 0 <= b.end && b.end < 4 && 0 <= b.start && b.start < 4
+//@   modifies b.buf, b.end
+//@   ensures 0 <= b.end && b.end < 4
+//@ func (*runeRingBuffer).get
+//@   property C05
+//@   requires b != nil && 0 <= b.end && b.end < 4 && 0 <= b.start && b.start < 4
+//@   modifies b.start
+//@   ensures 0 <= b.start && b.start < 4
+//@ func (*runeRingBuffer).empty
+//@   property C05
+//@   requires b != nil
+//@   modifies nothing
+//@ func (*runeRingBuffer).backup
+//@   property C05
+//@   requires b != nil && 0 <= b.start && b.start < 4
+//@   modifies b.start
+//@   ensures 0 <= b.start && b.start < 4
+//@ func (*tokenRingBuffer).put
+//@   property C05
+//@   requires b != nil && 0 <= b.end && b.end < 4 && 0 <= b.start && b.start < 4
+//@   modifies b.buf, b.end
+//@   ensures 0 <= b.end && b.end < 4
+//@ func (*tokenRingBuffer).get
+//@   property C05
+//@   requires b != nil && 0 <= b.end && b.end < 4 && 0 <= b.start && b.start < 4
+//@   modifies b.start
+//@   ensures 0 <= b.start && b.start < 4
+//@ func (*tokenRingBuffer).current
+//@   property C05
+//@   requires b != nil && 0 <= b.start && b.start < 4
+//@   modifies nothing
+//@ func (*tokenRingBuffer).empty
+//@   property C05
+//@   requires b != nil
+//@   modifies nothing
+//@ func (*tokenRingBuffer).backup
+//@   property C05
+//@   requires b != nil && 0 <= b.start && b.start < 4
+//@   modifies b.start
+//@   ensures 0 <= b.start && b.start < 4
+
+//@ -- makeSlice: the guarded allocation every size-from-the-program allocation goes through
+//@ func makeSlice
+//@   property C05
+//@   requires n >= 0
+//@   recovers makelen
+//@   modifies heap
+//@   ensures[length] err == nil ==> len(result0) == n
